@@ -47,7 +47,8 @@ theorem same_hash_same_value (H : HashFam) (ok : HashOK H) (v w : Json) (c : Nat
   · exact .inr h
 
 /-- **equal values ⇒ equal model hashes**: the hash is a function of the normal form (for top-level
-    objects and arrays, the values that have a model hash — D35) -/
+    objects and arrays, the values that have a model hash — D35; `hc` is implied by `h` whenever
+    the normal form exists and is kept only to make the statement total) -/
 theorem same_value_same_hash (H : HashFam) (v w : Json) (c : Nat) (hc : v.isContainer = w.isContainer)
     (h : v.normalize = w.normalize) : calculateModelMultihash H v c = calculateModelMultihash H w c := by
   have : transformValue v = transformValue w := by
